@@ -35,6 +35,7 @@ func runC13(c *core.Ctx) {
 	c13Rules4(c)
 	c13Rules4b(c)
 	c13MarshalPure(c)
+	c13RefEscape(c)
 	c.Rule("C13.typeof", "A7: per AST node type, MarshalJSON's Type(x) = unmarshal's CheckTypeOf(x), and getNode has a case x constructing that Go type; every typeOf a MarshalJSON can emit has a factory case")
 	c.Rule("C13.keys", "A7: per AST node type, the keys written by MarshalJSON and read by unmarshal are the same set, bind the same struct field, and the reader is of the setter's kind")
 	c.Rule("C13.formatfields", "A7: every field of an AST node that its Format prints from (and that therefore decides what the formatted script says) is written by MarshalJSON and assigned by unmarshal, or Format has a fallback for the field's zero value: a node read back from JSON must format to the text it came from (parentheses of a binary expression, the literal of a regex)")
